@@ -2751,3 +2751,149 @@ theorem renderTok_strict_no_var (cfg : Cfg) (reg : SReg) (ctx : Ctx) (hbf : BF c
           | cons a r => simp
 
 end Operon.Tmpl
+
+namespace Operon.Tmpl
+open Operon.Ribosome
+
+/-! ### a positive result INSIDE the hostile region: templates of text and plain variables (audit F5) -/
+
+def Tok.plain : Tok → Bool
+  | .text _ => true
+  | .var _ => true
+  | _ => false
+
+/-- what a plain template emits for one token: the bound value AS IT IS, or the slot itself -/
+def emitPlain (ctx : Ctx) : Tok → Str
+  | .var n => if isBound ctx n then textOf ctx n else tagOf n
+  | t => t.print
+
+theorem subWith_all_none {α : Type} (view : Tok → Option α) (g : α → Str) (ts : List Tok)
+    (h : ∀ t ∈ ts, view t = none) : subWith g (ts.flatMap (scanView view)) = printToks ts := by
+  rw [subWith_scanView]
+  unfold printToks
+  apply flatMap_congr'
+  intro t ht
+  simp [h t ht]
+
+theorem subM_all_none {α : Type} (view : Tok → Option α) (g : α → Except Err (Str × List Str)) (ts : List Tok)
+    (h : ∀ t ∈ ts, view t = none) : subM g (ts.flatMap (scanView view)) = .ok (printToks ts, []) := by
+  induction ts with
+  | nil => rfl
+  | cons t ts ih =>
+    simp only [List.flatMap_cons, subM_scanView_cons, h t (by simp), ih (fun x hx => h x (by simp [hx])), printToks_cons]
+
+theorem plain_wfs_wfp {cfg : Cfg} {t : Tok} (hp : t.plain = true) (h : t.wfs cfg) : t.wfp cfg := by
+  cases t <;> first | exact h | cases hp
+
+/-- For a template that consists of text and plain variables only, and for EVERY context — values that contain any
+    template construct included — the string layer emits each bound value verbatim, exactly once, and never looks at
+    it again: the output is the template's text with every bound `{{name}}` replaced by `str(value)` as it is. -/
+theorem translate_plain (cfg : Cfg) (hs : CfgSane2 cfg) (ctx : Ctx) (fuel : Nat) (ts : List Tok)
+    (hpl : ∀ t ∈ ts, t.plain = true) (hw : ∀ t ∈ ts, t.wfs cfg) :
+    translate cfg ctx (fuel + 1) (printToks ts) =
+      (let miss := (varNames ts).filter (fun n => !isBound ctx n)
+       if cfg.strict && !miss.isEmpty then .error .value
+       else .ok (ts.flatMap (emitPlain ctx), miss ++ miss)) := by
+  have hwp : ∀ t ∈ ts, t.wfp cfg := fun t ht => plain_wfs_wfp (hpl t ht) (hw t ht)
+  have hsc := hs.toCfgSane
+  -- every block / include / pipe / optional scanner passes a plain template through untouched
+  have hcond : processConditionals cfg ctx (printToks ts) = printToks ts := by
+    rw [processConditionals_print cfg hs ctx ts hw]
+    have := condGo_out_pass ctx ts [] (by intro x hx ws n e; have := hpl x hx; rw [e] at this; cases this)
+    simp only [List.append_nil, condGo] at this
+    rw [condPass, this]
+  have hloop : processLoops cfg ctx (printToks ts) = printToks ts := by
+    unfold processLoops scanStr
+    rw [scan_print_gen cfg hsc (matchLoop cfg) (needsLL_loop cfg) (fun _ => (none : Option (Str × Str))) (fun _ _ => rfl)
+      ts hwp (fun t ht htag rest => by
+        have hH := mHeadEach_at cfg hs t (hw t ht) htag rest
+        have hv : viewEachO t = none := by
+          have := hpl t ht
+          cases t <;> first | rfl | cases this
+        simp [matchLoop, hH, hv]) _ (by omega)]
+    exact subWith_all_none _ _ ts (fun _ _ => rfl)
+  have hinc : ∀ F : Str → Res, subM F (scanStr (matchWordTag cfg INCH) (printToks ts)) = .ok (printToks ts, []) := by
+    intro F
+    rw [scan_print_inc cfg hsc ts hwp]
+    exact subM_all_none _ _ ts (fun t ht => by have := hpl t ht; cases t <;> first | rfl | cases this)
+  have hfilt : passFiltered cfg ctx (printToks ts) = .ok (printToks ts, []) := by
+    unfold passFiltered scanStr
+    rw [scan_print_gen cfg hsc (matchFiltered cfg) (needsLL_filt cfg) (viewFilt cfg)
+      (by intro t h; cases t <;> first | rfl | cases h) ts hwp
+      (fun t ht htag rest => mFilt_at cfg hsc t (hw t ht) htag rest) _ (by omega)]
+    exact subM_all_none _ _ ts (fun t ht => by have := hpl t ht; cases t <;> first | rfl | cases this)
+  have hdef : passDefault cfg ctx (printToks ts) = printToks ts := by
+    unfold passDefault scanStr
+    rw [scan_print_gen cfg hsc (matchDefault cfg) (needsLL_def cfg) viewDef
+      (by intro t h; cases t <;> first | rfl | cases h) ts hwp
+      (fun t ht htag rest => mDef_at cfg hsc t (hw t ht) htag rest) _ (by omega), hits_scanView]
+    have : ts.filterMap viewDef = [] := by
+      apply List.filterMap_eq_nil_iff.mpr
+      intro t ht
+      have := hpl t ht
+      cases t <;> first | rfl | cases this
+    rw [this]; rfl
+  have hopt : passOptional cfg ctx (printToks ts) = printToks ts := by
+    unfold passOptional scanStr
+    rw [scan_print_opt cfg hsc ts hwp _ (by omega)]
+    have : ts.flatMap scanTokC = ts.flatMap (scanView (fun _ => (none : Option Str))) := by
+      apply flatMap_congr'
+      intro t ht
+      have := hpl t ht
+      cases t <;> first | rfl | cases this
+    rw [this]
+    exact subWith_all_none _ _ ts (fun _ _ => rfl)
+  have hsimple : passSimple cfg ctx (printToks ts)
+      = .ok (ts.flatMap (emitPlain ctx), (varNames ts).filter (fun n => !isBound ctx n)) := by
+    unfold passSimple scanStr
+    rw [scan_print cfg hsc ts hwp _ (by omega)]
+    clear hcond hloop hinc hfilt hdef hopt
+    induction ts with
+    | nil => rfl
+    | cons t ts ih =>
+      have ih' := ih (fun x hx => hpl x (by simp [hx])) (fun x hx => hw x (by simp [hx]))
+        (fun x hx => hwp x (by simp [hx]))
+      have hp := hpl t (by simp)
+      cases t with
+      | var n =>
+        simp only [List.flatMap_cons, scanTokD, List.cons_append, List.nil_append, subM, ih', emitPlain, varNames,
+          List.filter_cons]
+        by_cases hb : isBound ctx n = true <;> simp [hb]
+      | text s =>
+        simp only [List.flatMap_cons, scanTokD, subM_inl, ih', emitPlain, varNames, Tok.print]
+      | _ => cases hp
+  simp only [translate, requiredVars_print cfg hsc ts hwp, hcond, hloop, hinc, processVariables, hfilt, hdef, hopt, hsimple]
+  split <;> simp
+
+end Operon.Tmpl
+
+namespace Operon.Tmpl
+open Operon.Ribosome
+
+/-- the specification on a template of text and plain variables, for any context -/
+theorem specToks_plain (cfg : Cfg) (reg : SReg) (ctx : Ctx) (fuel : Nat) (ts : List Tok)
+    (hpl : ∀ t ∈ ts, t.plain = true) :
+    ∃ out, specToks cfg reg ctx (fuel + 1) (ts.map Seg.tok) = .ok out ∧ printToks out = ts.flatMap (emitPlain ctx) ∧
+      specMissing out = (varNames ts).filter (fun n => !isBound ctx n) := by
+  induction ts with
+  | nil => exact ⟨[], rfl, rfl, rfl⟩
+  | cons t ts ih =>
+    obtain ⟨o, h1, h2, h3⟩ := ih (fun x hx => hpl x (by simp [hx]))
+    have hp := hpl t (by simp)
+    simp only [specToks] at h1 ⊢
+    cases t with
+    | var n =>
+      by_cases hb : isBound ctx n = true
+      · refine ⟨valTok (textOf ctx n) ++ o, by simp [List.map_cons, flatMapM, specSeg, specTok, lookup, semV, hb, h1], ?_, ?_⟩
+        · rw [printToks_append, h2]; simp [valTok, printToks, Tok.print, emitPlain, hb]
+        · simp [specMissing, valTok, varNames, List.filter_cons, hb] at h3 ⊢; exact h3
+      · refine ⟨[.var n] ++ o, by simp [List.map_cons, flatMapM, specSeg, specTok, lookup, semV, hb, h1], ?_, ?_⟩
+        · rw [printToks_append, h2]; simp [printToks, Tok.print, emitPlain, hb]
+        · simp [specMissing, varNames, List.filter_cons, hb] at h3 ⊢; exact h3
+    | text s =>
+      refine ⟨[.text s] ++ o, by simp [List.map_cons, flatMapM, specSeg, specTok, semV, h1], ?_, ?_⟩
+      · rw [printToks_append, h2]; simp [printToks, Tok.print, emitPlain]
+      · simp [specMissing, varNames] at h3 ⊢; exact h3
+    | _ => cases hp
+
+end Operon.Tmpl
